@@ -40,6 +40,14 @@ def plan(tier, seed):
              + [("nomatch_%d" % i, rx) for i, rx in enumerate(NOMATCH * (3 if q else 20))])
     rng.shuffle(mixed)
     cases += rowlib.gen_cases(mixed, 15, CFGS, "mixed")
+    # runs with malformed rows, incl. a first batch that consists of malformed rows only
+    bad_rows = ["CCO>O>CC=O", "CC(C>>CCO", "CCO", "CCO>>CC=O>>C", ""]
+    for k in range(6 if q else 40):
+        good = [rx for _, rx in rng.sample(mixed, 7)]
+        lead = rng.sample(bad_rows, rng.randint(1, 2))
+        inputs = lead + good[:3] + [rng.choice(bad_rows)] + good[3:]
+        cases.append({"tag": "malformed_%d" % k, "inputs": inputs, "ids": [],
+                      "cfg": {"batch_size": [1, 2, len(lead), None][k % 4], "threshold": [0, 0.5][k % 2], "n_jobs": 1}})
     shards = rowlib.spread(cases, 14 if q else 44)
     # CLI runs
     ncli = 2 if q else 8
@@ -54,8 +62,9 @@ def relations(inputs, rows, stats, snap_after_rb, threshold, res, where, witness
     """-> list of violated relation names"""
     bad = []
     n = len(inputs)
-    all_valid = all(oracle.split_rsmi(rowlib.raw_of(i)) is not None
-                    and oracle.rfrags(rowlib.raw_of(i)) is not None for i in inputs)
+    valid = [oracle.split_rsmi(rowlib.raw_of(i)) is not None and oracle.rfrags(rowlib.raw_of(i)) is not None
+             for i in inputs]
+    all_valid = all(valid)
 
     def chk(name, ok, **kw):
         res.ev()
@@ -66,19 +75,22 @@ def relations(inputs, rows, stats, snap_after_rb, threshold, res, where, witness
 
     g = lambda k: stats.get(k, 0)  # noqa
     chk("reaction_cnt==input_rows", g("reaction_cnt") == n, expected=n)
-    if not all_valid or rows is None or len(rows) != n:
-        res.count("runs_with_malformed_or_lost_rows")
+    if rows is None or len(rows) != n:
+        res.count("runs_with_lost_rows")
         return bad
+    if not all_valid:
+        res.count("runs_with_malformed_rows")
     by = [r.get("solved_by") for r in rows]
     n_ib = sum(1 for b in by if b == "input-balanced")
     n_rb = sum(1 for b in by if b == "rule-based")
     n_mcs_attr = sum(1 for b in by if b == "mcs-based")
     n_mcs_solved = sum(1 for r in rows if r.get("solved_by") == "mcs-based" and r.get("solved") is True)
-    not_before = sum(1 for b in by if b not in ("input-balanced", "rule-based"))
+    # a malformed row never reaches a stage: "not solved before the MCS stage" is about the valid rows
+    not_before = sum(1 for b, ok in zip(by, valid) if ok and b not in ("input-balanced", "rule-based"))
     chk("balanced_cnt==rows_input_balanced", g("balanced_cnt") == n_ib, expected=n_ib)
     chk("confident_cnt==rows_solved_by_mcs", g("confident_cnt") == n_mcs_solved, expected=n_mcs_solved)
     chk("mcs_applied==rows_unsolved_before_mcs", g("mcs_applied") == not_before, expected=not_before)
-    if snap_after_rb is not None:
+    if snap_after_rb is not None and all_valid:
         chk("mcs_applied==snapshot_unsolved_after_rule_stage", g("mcs_applied") == snap_after_rb,
             expected=snap_after_rb)
     chk("rb_solved<=rb_applied", g("rb_solved") <= g("rb_applied"))
@@ -87,6 +99,8 @@ def relations(inputs, rows, stats, snap_after_rb, threshold, res, where, witness
     chk("mcs_solved>=rows_attributed_to_mcs", g("mcs_solved") >= n_mcs_attr, expected=n_mcs_attr)
     for k in KEYS:
         v = stats.get(k)
+        if v is None and not any(valid):
+            continue  # no valid row reached a stage: only reaction_cnt is reported
         chk("stat_%s_is_nonneg_int" % k, isinstance(v, int) and not isinstance(v, bool) and v >= 0, value=v)
     classes = {b if r.get("solved") else "declined:" + str(b) for b, r in zip(by, rows)}
     if len(classes) >= 3:
@@ -112,6 +126,8 @@ def judge(case, out, res):
         if b["rows"] is None or b["stats"] is None:
             continue
         rows = [{k: r.get(k) for k in ("solved", "solved_by")} for r in b["rows"]]
+        if len(rows) != len(b["inputs"]):
+            continue
         st = dict(b["stages"])
         s2 = sum(1 for s in st.get("rb_check", []) if not s[2]) if "rb_check" in st else None
         relations([r.get("reaction") for r in b["inputs"]], rows, b["stats"], s2,
